@@ -40,10 +40,10 @@ func Assumptions(prop string) []string {
 // still charged only to the properties whose API surface reaches the
 // function it sits in, see attrib.go.)
 var extraProps = map[string][]string{
-	"FORMATCONST_KEYORDER": {"C01", "C04"}, // built-in key order is the map's order and shapes the reference tree
-	"FORMATCONST_LAYER":    {"C04", "C09"}, // layers determine the canonical shape
-	"SIZE":                 {"C09"},        // Root.Size = number of entries
-	"HASHNAME":             {"C14", "C04"}, // hash and encoding identities are part of the published format
+	"FORMATCONST_KEYORDER": {"C01", "C04"},        // built-in key order is the map's order and shapes the reference tree
+	"FORMATCONST_LAYER":    {"C04", "C09", "C19"}, // layers determine the canonical shape, and the validator judges a root by them
+	"SIZE":                 {"C09"},               // Root.Size = number of entries
+	"HASHNAME":             {"C14", "C04"},        // hash and encoding identities are part of the published format
 	"DET":                  {"C14"},
 	"ENCINPUTS":            {"C14", "C04"},
 	"LINKNIL":              {"C06", "C07"},
@@ -53,7 +53,14 @@ var extraProps = map[string][]string{
 	"THRESH":               {"C05"},
 	"FORMATS":              {"C14"},
 	"CODECSYM":             {"C14"},
-	"ROOTFIELDS":           {"C04"},
+	// the Root is the handle of a captured version: its Link is the name the flush returned, held by the Root alone
+	// (C02: a kept Root never changes; C07: a published version is announced by name; C08: the name is the hash of what was written)
+	"ROOTFIELDS":  {"C04", "C02", "C07", "C08", "C15"},
+	"KEYOPAQUE":   {"C09", "C04"}, // keys ordered natively in one place and by the configured comparator elsewhere end up out of order in persisted nodes
+	"ROOTSWAP":    {"C15"},        // a persisted tree whose root stays an in-memory node never compares equal by name: the diff against its own version reads nodes
+	"ROOTDIRTY":   {"C04"},        // a name or a stale child installed as root leaves a height its contents do not justify
+	"LINKNAMES":   {"C11"},        // a published node that still points at an in-memory child shares that child with every tree that loads it
+	"EMITGRAMMAR": {"C08"},        // equal bytes only for equal contents: each element is emitted from its own encoding
 	// copy-on-write is what makes a reloaded tree independent of its source (C05, "with or without a node cache"),
 	// what keeps "same root name ⇒ same contents" true in memory (C08), what makes a failed operation harmless
 	// before the root swap (C12), and what C01 quantifies over ("cache on/off")
